@@ -124,11 +124,10 @@ mod verif_kani {
     }
 
     // ------------------------------------------------------------------ C05: parser stand-in (BOUNDED)
-    // All strings of length <= 3 over the alphabet of the property's exhaustive quantifier {0,1,7,+,-,.,e,E,_,x,space},
+    // All strings of length <= 6 (quick: 4) over the alphabet of the property's exhaustive quantifier {0,1,7,+,-,.,e,E,_,x,space},
     // through the real from_str_radix with the big-integer parser replaced by its assumed grammar.  Three harnesses check
     // one aspect each (CBMC slices away what an assertion does not depend on): acceptance, scale, digits handed over.
-    const MAXLEN: usize = 3;
-    static mut SEEN: [u8; 4] = [0; 4];
+    static mut SEEN: [u8; 8] = [0; 8];
     static mut SEEN_LEN: usize = 0;
     static mut SEEN_CALLS: usize = 0;
 
@@ -139,7 +138,7 @@ mod verif_kani {
             SEEN_CALLS += 1;
             SEEN_LEN = b.len();
             let mut k = 0;
-            while k < b.len() && k < 4 { SEEN[k] = b[k]; k += 1; }
+            while k < b.len() && k < 8 { SEEN[k] = b[k]; k += 1; }
         }
         let mut i = 0usize;
         if i < b.len() && (b[i] == b'+' || b[i] == b'-') { i += 1; }
@@ -155,7 +154,7 @@ mod verif_kani {
 
     /// reference recogniser for the numeral grammar of the property statement, on the bytes b[..n].
     /// Returns None (reject) or Some((expected string handed to the integer parser, its length, scale)).
-    fn oracle(b: &[u8; MAXLEN], n: usize) -> Option<([u8; 4], usize, i128)> {
+    fn oracle<const N: usize>(b: &[u8; N], n: usize) -> Option<([u8; 8], usize, i128)> {
         // split at first e/E
         let mut epos = n;
         let mut i = 0;
@@ -174,7 +173,7 @@ mod verif_kani {
             if neg { exp = -exp; }
         }
         // base part b[..epos]: optional sign, then digits / '_' with at most one '.', the first of the run is a digit
-        let mut out = [0u8; 4];
+        let mut out = [0u8; 8];
         let mut m = 0usize;
         let mut k = 0usize;
         if k < epos && (b[k] == b'+' || b[k] == b'-') { out[m] = b[k]; m += 1; k += 1; }
@@ -188,7 +187,7 @@ mod verif_kani {
                 if seen_dot { return None; }
                 seen_dot = true;
             } else if c.is_ascii_digit() || (c == b'_' && !first) {
-                if m < 4 { out[m] = c; m += 1; }
+                if m < 8 { out[m] = c; m += 1; }
                 if seen_dot && c != b'_' { frac_digits += 1; }
                 first = false;
                 any = true;
@@ -201,19 +200,22 @@ mod verif_kani {
         Some((out, m, frac_digits - exp))
     }
 
-    fn parse_upto(len: usize, what: u8) { parse_upto_alpha(len, what, false) }
+    fn parse_upto<const N: usize>(what: u8) { parse_upto_alpha::<N>(what, 0) }
 
     /// `utf8`: the alphabet is {1 . - e 0xC2 0xBD}: it contains the two-byte character U+00BD (and, as invalid
     /// sequences that are skipped, its lone bytes), so that non-ASCII text next to every structural character is covered
-    fn parse_upto_alpha(len: usize, what: u8, utf8: bool) {
-        let bytes: [u8; MAXLEN] = kani::any();
+    fn parse_upto_alpha<const N: usize>(what: u8, alpha: u8) {
+        let bytes: [u8; N] = kani::any();
         let n: usize = kani::any();
-        kani::assume(n <= len);
+        kani::assume(n <= N);
         let mut q = 0;
-        while q < MAXLEN {
+        while q < N {
             let c = bytes[q];
-            if utf8 {
+            if alpha == 1 {
                 kani::assume(c == b'1' || c == b'-' || c == b'.' || c == b'e' || c == 0xC2 || c == 0xBD);
+            } else if alpha == 2 {
+                // the five structural characters: a digit, the sign, the point, the exponent marker, the separator
+                kani::assume(c == b'1' || c == b'-' || c == b'.' || c == b'e' || c == b'_');
             } else {
                 kani::assume(c == b'0' || c == b'1' || c == b'7' || c == b'+' || c == b'-' || c == b'.' || c == b'e' || c == b'E' || c == b'_' || c == b'x' || c == b' ');
             }
@@ -235,42 +237,61 @@ mod verif_kani {
                     unsafe {
                         assert!(SEEN_CALLS == 1 && SEEN_LEN == m);
                         let mut k = 0;
-                        while k < m && k < 4 { assert!(SEEN[k] == digits[k]); k += 1; }
+                        while k < m && k < 8 { assert!(SEEN[k] == digits[k]); k += 1; }
                     }
                 }
             }
         }
     }
 
+    /// acceptance == grammar (and no panic), all strings up to 4 characters over the 11-symbol alphabet
     #[kani::proof]
-    #[kani::unwind(6)]
+    #[kani::unwind(7)]
     #[kani::stub(<BigInt as Num>::from_str_radix, stub_bigint_from_str_radix)]
     #[kani::stub(alloc::fmt::format, stub_format)]
-    fn parse_small_2() { parse_upto(2, 0) }
+    fn parse_small_4() { parse_upto::<4>(0) }
 
+    /// the same up to 6 characters
     #[kani::proof]
-    #[kani::unwind(6)]
+    #[kani::unwind(9)]
     #[kani::stub(<BigInt as Num>::from_str_radix, stub_bigint_from_str_radix)]
     #[kani::stub(alloc::fmt::format, stub_format)]
-    fn parse_small_3() { parse_upto(3, 0) }
+    fn parse_small_6() { parse_upto::<6>(0) }
 
+    /// scale == fraction digits - exponent, up to 6 characters
     #[kani::proof]
-    #[kani::unwind(6)]
+    #[kani::unwind(9)]
     #[kani::stub(<BigInt as Num>::from_str_radix, stub_bigint_from_str_radix)]
     #[kani::stub(alloc::fmt::format, stub_format)]
-    fn parse_small_3_scale() { parse_upto(3, 1) }
+    fn parse_small_6_scale() { parse_upto::<6>(1) }
 
+    /// the integer parser is handed exactly the sign and digits, up to 6 characters
     #[kani::proof]
-    #[kani::unwind(6)]
+    #[kani::unwind(9)]
     #[kani::stub(<BigInt as Num>::from_str_radix, stub_bigint_from_str_radix)]
     #[kani::stub(alloc::fmt::format, stub_format)]
-    fn parse_small_3_digits() { parse_upto(3, 2) }
+    fn parse_small_6_digits() { parse_upto::<6>(2) }
 
+    /// acceptance up to 8 characters over the five structural characters {1 - . e _}
+    #[kani::proof]
+    #[kani::unwind(11)]
+    #[kani::stub(<BigInt as Num>::from_str_radix, stub_bigint_from_str_radix)]
+    #[kani::stub(alloc::fmt::format, stub_format)]
+    fn parse_small_8_core() { parse_upto_alpha::<8>(0, 2) }
+
+    /// alphabet with the two-byte character U+00BD, up to 3 bytes
     #[kani::proof]
     #[kani::unwind(6)]
     #[kani::stub(<BigInt as Num>::from_str_radix, stub_bigint_from_str_radix)]
     #[kani::stub(alloc::fmt::format, stub_format)]
-    fn parse_small_3_utf8() { parse_upto_alpha(3, 0, true) }
+    fn parse_small_3_utf8() { parse_upto_alpha::<3>(0, 1) }
+
+    /// the same up to 5 bytes
+    #[kani::proof]
+    #[kani::unwind(8)]
+    #[kani::stub(<BigInt as Num>::from_str_radix, stub_bigint_from_str_radix)]
+    #[kani::stub(alloc::fmt::format, stub_format)]
+    fn parse_small_5_utf8() { parse_upto_alpha::<5>(0, 1) }
 
     /// any radix other than 10 is refused, whatever the text (one arbitrary ASCII byte; the refusal happens before the text is looked at)
     #[kani::proof]
